@@ -346,7 +346,7 @@ Print Assumptions C13_tree_pass_drf.
    NOT in the class, while the program without the innermost loop is *)
 Example C13_tree_nonvacuous :
   let cp := mkN 6 BDM [100; 101] [] in let g1 := mkN 7 BCompute [101; 102] [] in
-  let inner := [CLeaf cp []; CLeaf g1 [mkN 8 BOther [] [200]]] in
+  let inner := [CLeaf cp []; CLeaf g1 [(7, mkN 8 BOther [] [200])]] in
   let T := [CLeaf (mkN 1 BOther [] [101]) [];
             CFor (mkN 2 BOther [] []) [CIf (mkN 3 BOther [] []) [CLeaf (mkN 4 BOther [] []) []] [];
                                        CFor (mkN 5 BOther [] []) inner (mkN 9 BOther [] [])] (mkN 10 BOther [] []);
